@@ -921,7 +921,8 @@ class eval_abs(object):
         return ret
     def dump_mem(self):
         mems = list(self.pool.pool_mem.values())
-        mems.sort()
+        # ExprMem.__lt__ compares object addresses: sort on the printed cell instead
+        mems.sort(key=lambda x: str(x[0]))
         ret = []
         for m, v in mems:
             ret += [ "%s %s"%(m, v) ]
